@@ -33,20 +33,24 @@ SPEC = {
     },
     "floors": {
         "quick": {
-            "evaluations": 300_000, "distinct_nontrivial": 1500,
-            "arb_tx_values": 40, "mutants_rejected": 200_000, "mutants_accepted": 10_000,
-            "op_truncate": 50_000, "op_bitflip": 30_000, "op_cs-noncanonical": 30_000, "op_count-huge": 10_000,
-            "op_amount-out-of-range": 10_000, "boundary_amounts_accepted": 1000, "suffix_cases": 3000,
-            "shape_all_bundles_empty": 200, "shape_sapling_spends_only": 200, "shape_sapling_outputs_only": 200,
-            "shape_compactsize_253_boundary": 200, "shape_compactsize_64k_boundary": 4, "shape_script_64k": 4,
-            "shape_with_joinsplits": 300, "shape_with_orchard": 500, "shape_with_ironwood": 60, "shape_coinbase": 200,
-            "pos_v1_sprout": 100, "pos_v2_sprout": 100, "pos_v2hi_sprout": 100, "pos_v3_overwinter": 100,
-            "pos_v4_sapling": 100, "pos_v4_nu6_3": 100, "pos_v5_nu5": 100, "pos_v5_nu6_2": 100, "pos_v5_nu6_3": 100,
-            "pos_v6_nu6_3": 100,
+            # time-budgeted on a shared machine: floors are ~1/3 of what a quiet 16-core run observes
+            "evaluations": 150_000, "distinct_nontrivial": 1000,
+            "arb_tx_values": 36, "mutants_rejected": 70_000, "mutants_accepted": 10_000,
+            "op_truncate": 15_000, "op_bitflip": 12_000, "op_cs-noncanonical": 12_000, "op_count-huge": 10_000,
+            "op_count-plus1": 5000, "op_count-minus1": 3000, "op_amount-out-of-range": 6000, "op_all-ones": 2000,
+            "op_flags-reserved": 400, "op_header-value": 3000, "op_splice": 1500, "op_other-branch": 800,
+            "boundary_amounts_accepted": 1500, "suffix_cases": 700,
+            "shape_all_bundles_empty": 80, "shape_sapling_spends_only": 60, "shape_sapling_outputs_only": 60,
+            "shape_compactsize_253_boundary": 60, "shape_compactsize_64k_boundary": 6, "shape_script_64k": 6,
+            "shape_with_joinsplits": 100, "shape_with_orchard": 120, "shape_with_ironwood": 20, "shape_coinbase": 80,
+            "pos_v1_sprout": 40, "pos_v2_sprout": 40, "pos_v2hi_sprout": 40, "pos_v3_overwinter": 40,
+            "pos_v4_sapling": 40, "pos_v4_blossom": 40, "pos_v4_heartwood": 40, "pos_v4_canopy": 40, "pos_v4_nu5": 40,
+            "pos_v4_nu6": 40, "pos_v4_nu6_1": 40, "pos_v4_nu6_2": 40, "pos_v4_nu6_3": 40,
+            "pos_v5_nu5": 40, "pos_v5_nu6": 40, "pos_v5_nu6_1": 40, "pos_v5_nu6_2": 40, "pos_v5_nu6_3": 40, "pos_v6_nu6_3": 40,
             "header_cases": 300, "header_op_cs-noncanonical": 300, "header_op_count-huge": 1000,
             "compactsize_max_vector_accepted": 1, "oversized_compactsize_with_data_rejected": 1,
             "enc5_compactsize_values": 12, "enc5_combinator_rounds": 12,
-            "py_tx_checked": 1500, "py_pre_v5_txid_sha256d_checked": 700, "py_headers_checked": 300,
+            "py_tx_checked": 800, "py_pre_v5_txid_sha256d_checked": 400, "py_v5_v6_layout_checked": 200, "py_headers_checked": 300,
         },
         "thorough": {
             "evaluations": 8_000_000, "distinct_nontrivial": 5000,
